@@ -37,17 +37,23 @@ Ev(op, t, a, r) == EvT(op, t, a, r, "fx")
 Init == pc = "load1" /\ r1 = Z0 /\ r2 = Z0 /\ last = NoEvent
 Load1 == pc = "load1" /\ \E i \in RawInts : r1' = ZN(i) /\ pc' = "load2" /\ UNCHANGED <<r2, last>>
 Load2 == pc = "load2" /\ \E i \in RawInts : r2' = ZN(i) /\ pc' = "call" /\ UNCHANGED <<r1, last>>
+OpsOf(p) ==
+   CASE p = "C01" -> {"add", "sub"} [] p = "C02" -> {"mul", "smul"} [] p = "C03" -> {"div", "sdiv"}
+     [] p = "C04" -> {"i2f", "f2i", "sadd", "ssub"} [] p = "C06" -> {"cmp", "neg", "abs", "isnan"}
+     [] p = "C13" -> {"sqrt_abacus"} [] p = "C15" -> {"floor", "ceil"} [] p = "C18" -> {"shl", "shr", "and"}
+     [] OTHER -> BinFx \cup UnFx \cup {"shl", "shr", "smul", "sdiv", "sadd", "ssub", "i2f", "f2i"}
+On(op) == \E p \in Props : op \in OpsOf(p)
 Call ==
    /\ pc = "call" /\ pc' = "done" /\ UNCHANGED <<r1, r2>>
-   /\ \/ \E op \in BinFx : last' = Ev(op, <<"fx", "fx">>, <<r1, r2>>, 0)
-      \/ \E op \in UnFx : last' = Ev(op, <<"fx">>, <<r1>>, 0)
-      \/ \E op \in {"shl", "shr"} : ZToInt(r2) \in (-3)..(W-1) /\ last' = Ev(op, <<"fx">>, <<r1>>, ZToInt(r2))
+   /\ \/ \E op \in BinFx : On(op) /\ last' = Ev(op, <<"fx", "fx">>, <<r1, r2>>, 0)
+      \/ \E op \in UnFx : On(op) /\ r2 = Z0 /\ last' = Ev(op, <<"fx">>, <<r1>>, 0)
+      \/ \E op \in {"shl", "shr"} : On(op) /\ ZToInt(r2) \in (-3)..(W-1) /\ last' = Ev(op, <<"fx">>, <<r1>>, ZToInt(r2))
       \/ \E tg \in Tags :
             LET n == WrapT(TypeOf(tg), r2) IN
-            \/ \E op \in {"add", "sub", "mul", "div"} : last' = Ev(op, <<"fx", tg>>, <<r1, n>>, 0)
-            \/ \E op \in {"add", "sub", "mul", "div"} : last' = Ev(op, <<tg, "fx">>, <<n, r1>>, 0)
-            \/ last' = Ev("i2f", <<tg>>, <<n>>, 0)
-            \/ last' = EvT("f2i", <<"fx">>, <<r1>>, 0, tg)
+            \/ \E op \in {"add", "sub", "mul", "div"} : On("s" \o op) /\ last' = Ev(op, <<"fx", tg>>, <<r1, n>>, 0)
+            \/ \E op \in {"add", "sub", "mul", "div"} : On("s" \o op) /\ last' = Ev(op, <<tg, "fx">>, <<n, r1>>, 0)
+            \/ On("i2f") /\ r1 = Z0 /\ last' = Ev("i2f", <<tg>>, <<n>>, 0)
+            \/ On("f2i") /\ r2 = Z0 /\ last' = EvT("f2i", <<"fx">>, <<r1>>, 0, tg)
 Next == Load1 \/ Load2 \/ Call
 Spec == Init /\ [][Next]_vars
 
